@@ -110,6 +110,9 @@ def run(chk):
     if br.drivers.get("core", 1) is None:
         N = 600 if chk.tier == "quick" else 6000
         cases = [gen_case(rng) for _ in range(N)] + [gen_case(rng, n) for n in (1, 2, 1000, 10000)]
+        # block-boundary grain counts (independent stream): 2^k - 1, 2^k, 2^k + 1, multiples of 64/128/256/1000/1024
+        rngb = np.random.default_rng([chk.seed, 0xB10C])
+        cases += [gen_case(rngb, n) for n in G.block_sizes(chk.tier, cap=16385 if chk.tier == "quick" else None)]
         lines = [common.model_line("apply_gbs", [c["n"]],
                                    [c["chi"]] + list(c["o"].reshape(-1)) + list(c["f"]) + list(c["prev"].reshape(-1)))
                  for c in cases]
@@ -142,6 +145,11 @@ def run(chk):
                 sc = MT.scenario(rng, regime=4, nupd=3, strain=0.9)
                 sc["params"]["gbs_threshold"] = float(rng.uniform(0.2, 0.9))
                 sc["params"]["gbm_mobility"] = float(rng.uniform(50, 200))
+                h = c01.run_history(rec, sc)
+                c01.validate_traces(chk, h, tb)
+            for sc in MT.block_scenarios(np.random.default_rng([chk.seed, 0xB10C, 1]), chk.tier, regimes=(4, 6),
+                                         sizes=(64, 128, 129, 1024) if chk.tier == "quick" else None, nupd=2):
+                sc["params"]["gbs_threshold"] = float(rngb.uniform(0.2, 0.9))   # own stream: `rng` below is undisturbed
                 h = c01.run_history(rec, sc)
                 c01.validate_traces(chk, h, tb)
             # sliding acts after EVERY update, whatever the regime: textures that start with grains below
